@@ -435,3 +435,15 @@ package data
 //@   loop 0 invariant implies(rangeindex + 1 < len(vals), 0 <= runaddr(old(nd.Start + idot(loc, nd.OffsetStep, len(loc))), rangeindex + 1, step, nd.OffsetStep[dim]) && runaddr(old(nd.Start + idot(loc, nd.OffsetStep, len(loc))), rangeindex + 1, step, nd.OffsetStep[dim]) < len(nd.Impl))
 //@   loop 0 invariant forall(j, 0, rangeindex + 1, nd.Impl[runaddr(old(nd.Start + idot(loc, nd.OffsetStep, len(loc))), j, step, nd.OffsetStep[dim])] == vals[j])
 //@   loop 0 invariant forall(p, 0, len(nd.Impl), implies(!exists(j, 0, rangeindex + 1, p == runaddr(old(nd.Start + idot(loc, nd.OffsetStep, len(loc))), j, step, nd.OffsetStep[dim])), nd.Impl[p] == old(nd.Impl[p])))
+
+// ---- ApplySlice / CopyFrom: element-wise copy in row-major order (C01, C02) ----
+// Mixed-radix successor, checked for ranks 1..3 (BOUNDED by rank; extents are symbolic): if v holds the
+// row-major coordinates of j and w is what Increment makes of v (carry position c: prefix kept, digit c
+// incremented, later digits zero; all zero when there is no such position), then w holds the coordinates of j+1.
+// adding one to j: the quotient by P steps exactly when the remainder was P-1 (induction variable unused)
+//@ induct [C02.lemma-div-succ] (j int, P int) z : implies(j >= 0 && P >= 1, ite(mod(j, P) == P - 1, div(j+1, P) == div(j, P) + 1 && mod(j+1, P) == 0, div(j+1, P) == div(j, P) && mod(j+1, P) == mod(j, P) + 1))
+// quotient by a product is the quotient of the quotient
+//@ induct [C02.lemma-div-div] (j int, P int, d int) z : implies(j >= 0 && P >= 1 && d >= 1, div(div(j, P), d) == div(j, d*P) && mod(div(j, P), d)*P + mod(j, P) == mod(j, d*P))
+//@ induct [C02.lemma-successor-1] (v []int, w []int, d []int, j int) z : implies(j >= 0 && j < pfrom(d, 0, 1) && forall(k, 0, 1, d[k] >= 1 && v[k] == rmc(d, j, 1, k)) && forall(k, 0, carryPos(v, d, 0), w[k] == v[k]) && implies(carryPos(v, d, 0) >= 0, w[carryPos(v, d, 0)] == v[carryPos(v, d, 0)] + 1) && forall(k, carryPos(v, d, 0) + 1, 1, w[k] == 0), forall(k, 0, 1, w[k] == rmc(d, j+1, 1, k)))
+//@ induct [C02.lemma-successor-2] using C02.lemma-div-succ(j, d[1], 0), C02.lemma-div-succ(div(j, d[1]), d[0], 0) (v []int, w []int, d []int, j int) z : implies(j >= 0 && j < pfrom(d, 0, 2) && forall(k, 0, 2, d[k] >= 1 && v[k] == rmc(d, j, 2, k)) && forall(k, 0, carryPos(v, d, 1), w[k] == v[k]) && implies(carryPos(v, d, 1) >= 0, w[carryPos(v, d, 1)] == v[carryPos(v, d, 1)] + 1) && forall(k, carryPos(v, d, 1) + 1, 2, w[k] == 0), forall(k, 0, 2, w[k] == rmc(d, j+1, 2, k)))
+//@ induct [C02.lemma-successor-3] using C02.lemma-pfrom-end(d, 3, 0), C02.lemma-div-succ(j, pfrom(d, 2, 3), 0), C02.lemma-div-succ(div(j, pfrom(d, 2, 3)), d[1], 0), C02.lemma-div-succ(div(j, pfrom(d, 1, 3)), d[0], 0), C02.lemma-div-div(j, pfrom(d, 2, 3), d[1], 0), C02.lemma-div-div(j+1, pfrom(d, 2, 3), d[1], 0) (v []int, w []int, d []int, j int) z : implies(j >= 0 && j < pfrom(d, 0, 3) && forall(k, 0, 3, d[k] >= 1 && v[k] == rmc(d, j, 3, k)) && forall(k, 0, carryPos(v, d, 2), w[k] == v[k]) && implies(carryPos(v, d, 2) >= 0, w[carryPos(v, d, 2)] == v[carryPos(v, d, 2)] + 1) && forall(k, carryPos(v, d, 2) + 1, 3, w[k] == 0), forall(k, 0, 3, w[k] == rmc(d, j+1, 3, k)))
